@@ -151,3 +151,56 @@ fn c16_prune_leaves_limit_minus_one_newest_bounded() {
     assert!(mask >> n == 0, "C16.prune.removes_only_listed_files");
     kani::cover!(n == 4 && max_files == 2, "C16.reachable.backlog_larger_than_the_limit");
 }
+
+// ---- file names: the format description each rotation kind hands to `time`, and the shape join_date gives the name ----
+#[allow(deprecated)]
+fn is_lit(i: &format_description::FormatItem<'static>, s: &[u8]) -> bool {
+    match i { format_description::FormatItem::Literal(l) => *l == s, format_description::FormatItem::StringLiteral(l) => l.as_bytes() == s, _ => false }
+}
+
+// One harness per rotation kind, each on a CONCRETE kind: time's description parser then runs on a constant string and
+// constant-folds (one harness over a symbolic kind took 270 s and did not finish within 900 s on a changed description).
+fn date_format_body(k: u8) {
+    use format_description::{Component, FormatItem};
+    let r = match k { 0 => Rotation::MINUTELY, 1 => Rotation::HOURLY, 2 => Rotation::DAILY, _ => Rotation::NEVER };
+    let f = r.date_format();
+    let want_len = match k { 0 => 9, 1 => 7, _ => 5 };
+    assert!(f.len() == want_len, "C16.date_format.one_component_per_calendar_field_down_to_the_period");
+    // calendar year / numeric month / day of month (/ 24 h hour / minute), each with time's default modifiers (zero padded, no
+    // mandatory sign) - the component KIND is what names the period: a week-based year or a 12 h hour names another one
+    assert!(f[0] == FormatItem::Component(Component::CalendarYearFullStandardRange(Default::default())), "C16.date_format.year_is_the_calendar_year");
+    assert!(is_lit(&f[1], b"-") && is_lit(&f[3], b"-"), "C16.date_format.fields_are_joined_by_dashes");
+    assert!(f[2] == FormatItem::Component(Component::MonthNumerical(Default::default())), "C16.date_format.month_is_numeric");
+    assert!(f[4] == FormatItem::Component(Component::Day(Default::default())), "C16.date_format.day_of_month");
+    if k <= 1 {
+        assert!(is_lit(&f[5], b"-") && f[6] == FormatItem::Component(Component::Hour24(Default::default())), "C16.date_format.hour_is_24h");
+    }
+    if k == 0 {
+        assert!(is_lit(&f[7], b"-") && f[8] == FormatItem::Component(Component::Minute(Default::default())), "C16.date_format.minute");
+    }
+    core::mem::forget(f);
+}
+// BOUND: none on the inputs (the description string of that rotation kind is a constant); the unwinding bound covers time's parser on it
+#[kani::proof]
+#[kani::unwind(48)]
+#[kani::stub(core::fmt::Formatter::pad, pad_stub)]
+fn c16_date_format_minutely_names_the_calendar_fields_of_the_period_bounded() { date_format_body(0) }
+// BOUND: none on the inputs (the description string of that rotation kind is a constant); the unwinding bound covers time's parser on it
+#[kani::proof]
+#[kani::unwind(48)]
+#[kani::stub(core::fmt::Formatter::pad, pad_stub)]
+fn c16_date_format_hourly_names_the_calendar_fields_of_the_period_bounded() { date_format_body(1) }
+// BOUND: none on the inputs (the description string of that rotation kind is a constant); the unwinding bound covers time's parser on it
+#[kani::proof]
+#[kani::unwind(48)]
+#[kani::stub(core::fmt::Formatter::pad, pad_stub)]
+fn c16_date_format_daily_names_the_calendar_fields_of_the_period_bounded() { date_format_body(2) }
+// BOUND: none on the inputs (the description string of that rotation kind is a constant); the unwinding bound covers time's parser on it
+#[kani::proof]
+#[kani::unwind(48)]
+#[kani::stub(core::fmt::Formatter::pad, pad_stub)]
+fn c16_date_format_never_names_the_calendar_fields_of_the_period_bounded() { date_format_body(3) }
+
+// Measured and dropped: a harness on `Inner::join_date` with `OffsetDateTime::format` replaced by a marker stub (where the
+// period text goes between prefix and suffix, 16 combinations) does not finish in 900 s, neither with symbolic nor with
+// concrete combinations (`format!` over `String`s under CBMC). join_date stays under not_covered.
